@@ -641,3 +641,18 @@ _add_v("C09", "interp")                    # the position of a slot error moves 
 PROPS["C09"]._k = PROPS["C09"]._k + [u for u in props_lexer.C18_UNITS if u not in PROPS["C09"]._k]   # CR is not a line break; columns count characters
 _add_v("C03", "lex_next")                  # the terminator filter is a loop that terminates (no recursion)
 _add_v("C18", "name_bind")                 # an undefined name is reported at the name, also as the target of `op=`
+
+
+# round-5: main.rs::run - the text handed to the lexer is the file's own, the whole file parses before anything runs
+V_RUN = VUnit("run_script", "run_script", ["main::run"])
+ALL_V += [V_RUN]
+PROPS["C02"]._v = ALL_V
+_add_v("C03", "run_script")
+_add_v("C09", "run_script")
+_add_v("C15", "run_script")
+_add_v("C17", "run_script")
+_add_v("C18", "run_script")
+for _p in ("C03", "C09", "C15", "C17", "C18"):
+    PROPS[_p].assumptions = PROPS[_p].assumptions + [
+        "V-run: the file system (current_dir, read_to_string), Lexer::new + ProgParser::parse and eval_prog are external; "
+        "a file's content and the parse of a text are functions of the path / the text for the duration of one run"]
